@@ -16,7 +16,8 @@ REGISTRATION = {
             "pending loop is idle and nothing is queued, i.e. every accepted request has its single reply or was skipped as "
             "already cancelled (a pending loop waiting for an unload event always gets one). Both liveness theorems are instantiated on non-trivial reachable stuck "
             "states (one request with keep-alive expiry; two models with OLLAMA_MAX_LOADED_MODELS=1 and a wait for the victim's "
-            "unload). They are theorems of the base model with UNBOUNDED event channels: the bounded model (Model/SchedChan.lean: "
+            "unload). They are theorems of the base model with UNBOUNDED event channels, lifted to the bounded model for states in which "
+            "nobody is parked inside a region (drain_bounded, all_answered_bounded): the bounded model (Model/SchedChan.lean: "
             "capacity OLLAMA_MAX_QUEUE for all four channels, sends made while holding mutexes, loadedMu/refMu acquisition order, "
             "parameters regenerated from the source) refines the base model (all safety theorems carry over) and exhibits the "
             "deadlocks the base model cannot: F12d (known finding on the current tree: with OLLAMA_MAX_QUEUE=1 expireRunner parks "
@@ -27,12 +28,14 @@ REGISTRATION = {
             "/ deadlock).",
     "design_ref": "DESIGN.md §5 C01/C02/C11",
     "note": COMMON_NOTE + "unloadAllRunners at shutdown is modelled separately (Properties/C02Shutdown.lean: every started runner has had "
-            "exactly one Close() right after it; witnesses: it closes runners in use, and a late expired event closes a second time) "
-            "and is not driven on the real code. Outside the model: preemption inside a locked region, real timers, the cuda "
+            "exactly one Close() right after it; witnesses: it closes runners in use, and a late expired event closes a second time); "
+            "on the real code the driver ends every non-wedged trace with that shutdown and checks that every started runner "
+            "has had its Close() (monitor c02-shutdown-not-closed). Outside the model: preemption inside a locked region, real timers, the cuda "
             "VRAM-recovery poller, the unbuffered hand-over on successCh (monitor c02-deadlock-handover), updateFreeSpace's per-runner "
-            "refMu acquisitions; drain/all_answered are not lifted to the bounded model (F12d refutes them there for tiny queues).",
+            "refMu acquisitions; drain/all_answered hold in the bounded model only for states in which no goroutine is parked inside a region "
+            "(drain_bounded, all_answered_bounded); F12d is a reachable state with a parked goroutine.",
 }
-MODULES = ["OllamaVerif.Properties.C02", "OllamaVerif.Properties.C02Drain", "OllamaVerif.Properties.C02Live", "OllamaVerif.Properties.C02Shutdown", "OllamaVerif.Properties.C02Chan", "OllamaVerif.Tie.C01"]
+MODULES = ["OllamaVerif.Properties.C02", "OllamaVerif.Properties.C02Drain", "OllamaVerif.Properties.C02Live", "OllamaVerif.Properties.C02Shutdown", "OllamaVerif.Properties.C02Chan", "OllamaVerif.Properties.C02ChanDrain", "OllamaVerif.Tie.C01"]
 THEOREMS = [
     "OllamaVerif.C02.at_most_one_reply",
     "OllamaVerif.C02.reply_is_runner_xor_error",
@@ -62,6 +65,10 @@ THEOREMS = [
     "OllamaVerif.C02Shutdown.shutdown_closes_every_started_runner",
     "OllamaVerif.C02Shutdown.shutdown_closes_runner_in_use",
     "OllamaVerif.C02Shutdown.shutdown_then_expiry_closes_twice",
+    "OllamaVerif.C02Chan.stepB_enabled_of_step",
+    "OllamaVerif.C02Chan.drain_bounded",
+    "OllamaVerif.C02Chan.all_answered_bounded",
+    "OllamaVerif.C02Chan.drained_trace_runs_bounded",
     "OllamaVerif.C02Chan.stepB_refines",
     "OllamaVerif.C02Chan.bounded_at_most_one_reply",
     "OllamaVerif.C02Chan.F12d_expiredCh_capacity_wedges",
